@@ -15,7 +15,8 @@ GENERATED = ["Env", "Config"]
 RULE = ("cases = (nested settings tree with underscore-/case-bearing keys so that distinct paths collide at every depth, "
         "all leaf types incl. list/tuple/float/None/empty sections, environment with relevant / irrelevant / badly typed / "
         "empty / unprefixed / lower-case / section-naming variables, prefix default or custom via a Config subclass - plain or made of regex metacharacters (. + * ? ( ) [ ] | ^ $ \\ { }), with "
-        "near-miss variables that match such a prefix as a pattern but not literally); "
+        "near-miss variables that match such a prefix as a pattern but not literally - or containing dashes, spaces, mixed case, a leading "
+        "digit, leading / trailing underscores, non-ASCII letters, or empty, with near-miss variables a normalisation of the prefix would accept); "
         "each is run through the real Config(...).load_shell_env() under a replaced os.environ; non-trivial = at least "
         "one variable of the environment names an existing setting or two settings collide; distinct = distinct "
         "(tree, environment, prefix) triples; plus HISTORIES on one Config object: 2-4 load_shell_env() calls under changing "
@@ -110,8 +111,30 @@ META_PREFIXES = ["my.app", "c++", "a*", "x?", "(p)", "[ab]", "a|b", "^p", "p$", 
 META = set(".+*?()[]|^$\\{}")
 
 
+# ... nor is it normalised beyond the documented upper-casing: dashes, spaces, dots, mixed case, a leading digit, leading /
+# trailing / only underscores, non-ASCII letters (str.upper: ß -> SS, ı -> I, ǆ -> Ǆ, ﬁ -> FI), the empty prefix
+NORM_PREFIXES = ["my-app", "my app", "a--b", "-", "MyApp", "myApp", "9lives", "_app", "app_", "__", "stra\u00dfe", "\u0131x",
+                 "\u01c6", "\ufb01x", "\u00e9t\u00e9", "", " pad "]
+
+
 def choose_prefix(rng, plain):
-    return rng.choice(META_PREFIXES) if rng.random() < 0.25 else rng.choice(plain)
+    r = rng.random()
+    return rng.choice(META_PREFIXES) if r < 0.22 else rng.choice(NORM_PREFIXES) if r < 0.47 else rng.choice(plain)
+
+
+def normalised_near_misses(rng, pre, name):
+    """variable names a 'helpful' normalisation of the prefix would accept: NOT `pre.upper() + "_" + name` literally"""
+    P = pre.upper() + "_"
+    import unicodedata
+    ascii_fold = unicodedata.normalize("NFKD", pre).encode("ascii", "ignore").decode().upper() + "_"
+    ascii_upper = "".join(c.upper() if c.isascii() else c for c in pre) + "_"
+    cands = {P.replace("-", "_"), P.replace(" ", "_"), P.replace(".", "_"), P.replace("-", ""), P.replace(" ", ""),
+             pre.strip().upper() + "_", pre.strip("_").upper() + "_", pre.strip("-_ ").upper() + "_", pre + "_", pre.lower() + "_",
+             pre.title() + "_", pre.casefold().upper() + "_", pre.swapcase() + "_", ascii_fold, ascii_upper, P.rstrip("_") + "_",
+             "_" + P, P + "_", P[:-1], P.lstrip("0123456789"), "INVOKE_", "_"}
+    cands.discard(P)
+    out = sorted(c + name for c in cands if (c + name) and "=" not in (c + name) and "\0" not in (c + name))
+    return rng.sample(out, min(len(out), rng.choice([1, 2, 3, 4])))
 
 
 def near_misses(rng, P, name):
@@ -146,12 +169,17 @@ def gen_case(rng):
     lv = list(leaves(t))
     pre = choose_prefix(rng, ["invoke", "invoke", "myapp", "my_app", "x"])
     how = "default" if pre == "invoke" else rng.choice(["prefix", "env_prefix"])
+    if pre == "":
+        how = "env_prefix"  # (as `prefix` the empty string would also be the FILE prefix: "<dir>/.yaml" - not this property's business)
     P = pre.upper() + "_"
     env = {}
     for p, v in lv:
         if any(c in META for c in P) and rng.random() < 0.5:
             for nm in near_misses(rng, P, var_of(p)):
                 env[nm] = rng.choice(["near", "1", "0", "9"])  # reads like the prefix as a pattern; names nothing
+        if pre in NORM_PREFIXES and rng.random() < 0.6:
+            for nm in normalised_near_misses(rng, pre, var_of(p)):
+                env.setdefault(nm, rng.choice(["near", "1", "0", "9"]))  # the prefix 'normalised'; not the documented name
         r = rng.random()
         if r < 0.5:
             numeric = isinstance(v, (int, float)) and not isinstance(v, bool)
@@ -477,6 +505,12 @@ def gen_environ(rng, P, view, prev):
             if rng.random() < 0.3:
                 for nm in near_misses(rng, P, var_of(p)):
                     env[nm] = "near"
+    pre0 = next((x for x in NORM_PREFIXES if x.upper() + "_" == P), None)
+    if pre0 is not None:
+        for p, _ in lv:
+            if rng.random() < 0.3:
+                for nm in normalised_near_misses(rng, pre0, var_of(p)):
+                    env.setdefault(nm, "near")
     if rng.random() < 0.6:
         env[P + "NOT_A_SETTING"] = "1"
     if rng.random() < 0.3:
@@ -493,6 +527,8 @@ def gen_history(rng):
             break
     pre = choose_prefix(rng, ["invoke", "invoke", "myapp", "my_app"])
     how = "default" if pre == "invoke" else rng.choice(["prefix", "env_prefix"])
+    if pre == "":
+        how = "env_prefix"  # (as `prefix` the empty string would also be the FILE prefix: "<dir>/.yaml" - not this property's business)
     P = pre.upper() + "_"
     levels = {"defaults": variant(rng, master, 0.8), "collection": {}, "overrides": {}, "modifications": {}}
     ops = [{"op": "defaults", "tree": tag(levels["defaults"])}]
@@ -710,6 +746,11 @@ def run(ctx):
         out.case(c, nontrivial=(applied > 0 or kind == "ambiguous"))
         out.hist["kind:" + kind] += 1
         out.hist["prefix:" + c.get("how", "default")] += 1
+        if c["prefix"] in NORM_PREFIXES:
+            cls = ("empty" if c["prefix"] == "" else "non_ascii" if not c["prefix"].isascii() else "dash_or_space" if any(x in c["prefix"] for x in "- ")
+                   else "underscores" if c["prefix"].strip("_") != c["prefix"] else "case_or_digit")
+            out.hist["prefix_normalisable:" + cls] += 1
+            out.hist["prefix_normalisable_near_miss_vars:%d" % min(3, sum(1 for k in c["env"] if not k.startswith(P)))] += 1
         if any(ch in META for ch in P):
             out.hist["prefix_with_metacharacter"] += 1
             out.hist["prefix_meta_near_miss_vars:%d" % min(3, sum(1 for k, v in c["env"].items() if v in ("near",) or (not k.startswith(P) and v in ("1", "0", "9") and k.endswith(tuple(var_of(p) for p, _ in leaves(before)) or ("\0",)))))] += 1
